@@ -329,6 +329,10 @@ var textMuts = []textMut{
 	{"slice-of-non-sliceable", `sub := xs[1:2]`, `sub := n[1:2]`},
 	{"slice-index-type", `sub := xs[1:2]`, `sub := xs["1":2]`},
 	{"slice-constant-indices-inverted", `sub := xs[1:2]`, `sub := xs[2:1]`},
+	{"slice-constant-indices-low-above-max", `sub := xs[1:2]`, `sub := xs[2:n0:1]`},
+	{"slice-constant-indices-high-above-max", `sub := xs[1:2]`, `sub := xs[1:3:2]`},
+	{"slice-constant-indices-low-above-high-3", `sub := xs[1:2]`, `sub := xs[2:1:3]`},
+	{"slice-three-index-string", `sub := xs[1:2]`, `sub := xs[1:2]; _ = "abc"[0:1:2]`},
 	{"defer-wrong-arguments", `defer fmt.Sprint(total)`, `defer sum("1")`},
 	{"go-wrong-arguments", `go sum(1)`, `go sum("1")`},
 	{"receiver-method-return-type", `{ return p.Name }`, `{ return p.X }`},
